@@ -303,8 +303,12 @@ def snippets_for(target: str, symbol_table: Any, module_name: str = "aasv_dummy"
         if ext is None:
             continue
         if cls.constructor.is_implementation_specific:
-            # NOTE: the TypeScript generator looks the constructor up under a ``.py`` key (sic).
-            out[f"Types/{n}/{n}.{'py' if target == 'typescript' else ext}"] = dummy
+            out[f"Types/{n}/{n}.{ext}"] = dummy
+            if target == "typescript":
+                # NOTE: the TypeScript generator used to look the constructor up under a ``.py`` key (sic; repaired by the
+                # commit "fix: look up the implementation-specific constructor under a .ts key"); both keys are supplied so that
+                # the harness works on either tree.
+                out[f"Types/{n}/{n}.py"] = dummy
         for method in cls.methods:
             if not isinstance(method, intermediate.ImplementationSpecificMethod):
                 continue
